@@ -496,20 +496,21 @@ func (ex *Exec) builtin(st *State, b *ssa.Builtin, args []Value, x *ssa.Call) Va
 			panic(unsupported("len of map"))
 		}
 	case "cap":
-		if a, ok := args[0].(*SliceVal); ok {
-			var r *Term
-			for _, al := range a.Alts {
-				if r == nil {
-					r = al.Len
-				} else {
-					r = Ite(al.C, al.Len, r)
-				}
+		// capacity is not modelled: an unknown value that is at least the length
+		var ln *Term
+		switch a := args[0].(type) {
+		case *SliceVal:
+			ln = sliceLen(a)
+		case *Term:
+			if a.S == SBytes {
+				ln = BLen(a)
 			}
-			ex.note("cap() modelled as len()")
-			return r
 		}
-		if a, ok := args[0].(*Term); ok && a.S == SBytes {
-			return BLen(a)
+		if ln != nil {
+			ex.objSeq++
+			c := Var(fmt.Sprintf("cap!%d", ex.objSeq), SInt)
+			ex.assume(Ge(c, ln))
+			return c
 		}
 	case "append":
 		return ex.appendBuiltin(st, args, x)
